@@ -94,6 +94,26 @@ def rules(P, R, prefix="C12"):
             it = [ctx.term(x) for x in inits]
             R.judge(it == ["self.stake"], prefix + ".Q2", key(f, "accumulator starts at the node's own stake" + tag, i),
                     inits[0]["sp"] if inits else f.sp, str(it), "accumulator `%s` is initialised with %s, not self.stake" % (acc["name"], it))
+            # ... and it is a fresh counter for every batch: declared inside the scope that handles ONE received message
+            decl = next((n for n in f.nodes() if n["k"] in ("slet", "let") and n["pat"].get("k") == "pbind" and n["pat"].get("id") == vid), None)
+            scope_ok = False
+            if decl is not None:
+                for a in f.ancestors(decl):
+                    if a["k"] == "select":
+                        for b in a["branches"]:
+                            if any(x is decl for x in ir.walk(b["body"])) and b.get("fut") is not None and ".recv()" in ctx.term(b["fut"]):
+                                scope_ok = True
+                        break
+                    if a["k"] in ("while", "for") and any(x is decl for x in ir.walk(a["body"])):
+                        it = ctx.term(a["c"]["init"]) if a["k"] == "while" and a["c"]["k"] == "let" else ""
+                        if ".recv()" in it:
+                            scope_ok = True
+                        break
+                    if a["k"] == "loop":
+                        break
+            R.judge(scope_ok, prefix + ".Q2", key(f, "accumulator is re-initialised for every batch" + tag, i), decl["sp"] if decl else f.sp, "",
+                    "the stake accumulator `%s` is declared outside the per-message scope: stake acknowledged for one batch is still counted "
+                    "for the next, which is then delivered on its first acknowledgement" % acc["name"])
             R.floor(prefix + ".Q2", len(writes), 1, "accumulations into the stake counter" + tag)
             msg_term = None
             for w, j in ordinal_keys(writes, lambda x: 0):
